@@ -357,6 +357,14 @@ class Lexer(object):
 
         if self.cur_token is not None:
 
+            # a reserved word right after '.' is a property name (11.2.1)
+            # and must not be mistaken for the keyword by the checks on
+            # previous tokens (restricted productions, division/regex)
+            if (self.cur_token.type in self.keywords and
+                    self.valid_prev_token is not None and
+                    self.valid_prev_token.type == 'PERIOD'):
+                self.cur_token.type = 'ID'
+
             if self.cur_token.type in ('LPAREN',):
                 # if we encounter a FOR, IF, WHILE, then whatever in
                 # the parentheses are marked.  Otherwise just push
